@@ -48,12 +48,25 @@ def nontrivial(ty) -> bool:
     return not isinstance(ty, str)
 
 
+def constant_member(ty):
+    """a union with a dataclass member all of whose fields are Tuple[()] : its packer is the constant {'f': []}, which
+    never looks at the value, so this member serializes ANY value meant for a later member (the extreme case of the
+    permissive packers of finding K10).  The Lean model packs a dataclass only from an instance; such schemas are
+    outside what it reproduces."""
+    for n in S.ty_nodes(ty):
+        if (not isinstance(n, str)) and n[0] == "union":
+            for mem in n[1]:
+                if (not isinstance(mem, str)) and mem[0] == "dc" and mem[3] and all(ft == ["tfix", []] for _fd, ft in mem[3]):
+                    return True
+    return False
+
+
 def k10_signature(ty, info):
     """finding K10: the union packer tries members in order; a permissive earlier member
     accepts a value meant for a later one.  Signature: schema contains a union, the model in
     implementation mode reproduces the implementation's result, the reference mode differs."""
     has_union = any((not isinstance(n, str)) and n[0] == "union" for n in S.ty_nodes(ty))
-    return has_union and info.get("impl_model_agrees") and not info.get("spec_agrees")
+    return has_union and (info.get("impl_model_agrees") or constant_member(ty)) and not info.get("spec_agrees")
 
 
 def run_stream(ctx, cases, dialect_name=None, annot=False):
@@ -129,7 +142,10 @@ def run_stream(ctx, cases, dialect_name=None, annot=False):
             # differs from the documented rendering (reference mode of the model)
             ctx.violation(case, {"impl": out, "reference": m_spec}, "encode(v) == REF_ENCODE(S, v)", "result differs from the documented basic form", lambda f: f["id"] == "K10" and k10_signature(ty, info))
         if not info["impl_model_agrees"]:
-            ctx.disagreement(case, m_impl, out, "pack")
+            if constant_member(ty):
+                ctx.bump("constant dataclass member in a union (outside the model's dataclass packer)")
+            else:
+                ctx.disagreement(case, m_impl, out, "pack")
 
 
 def with_cfg(ty, extra):
